@@ -222,8 +222,8 @@ def seq_env(stmts, assume=None, stop=(), env=None, on_stmt=None):
                                 env[x.id] = ast.Subscript(value=v, slice=ast.Constant(value=k), ctx=ast.Load())
             elif isinstance(st, ast.AugAssign) and isinstance(st.target, ast.Name):
                 nm = st.target.id
-                if nm in env and nm not in opaque:
-                    env[nm] = ast.BinOp(left=env[nm], op=st.op, right=sub(st.value))
+                if nm not in opaque:
+                    env[nm] = ast.BinOp(left=env.get(nm, ast.Name(id=nm, ctx=ast.Load())), op=st.op, right=sub(st.value))
             elif isinstance(st, ast.If):
                 d = assume(st.test) if assume else None
                 if d is True:
@@ -832,6 +832,16 @@ def fft_route_items(g, ft, pr):
         p0 = args[0]
         found = []
         rebound = False
+        # an augmented assignment on ANY parameter updates the caller's object in place when that object is an ndarray
+        # (a 0-d array passed for a scalar): only a parameter re-bound by a plain assignment first is safe
+        plain = set()
+        for st in fn.body:
+            for node in ast.walk(st):
+                if isinstance(node, ast.AugAssign) and isinstance(node.target, ast.Name) and node.target.id in args[1:] \
+                        and node.target.id not in plain:
+                    found.append(u(node)[:60])
+            if isinstance(st, ast.Assign):
+                plain |= {t.id for t in st.targets if isinstance(t, ast.Name)}
         for st in fn.body:           # top-level order: an unconditional plain re-assignment ends the aliasing
             for node in ast.walk(st):
                 if isinstance(node, ast.AugAssign) and not rebound:
@@ -864,7 +874,8 @@ def fft_route_items(g, ft, pr):
            purity(ft, ['pad2d', 'crop_center', 'MatrixDFTExecutor.dft2', 'MatrixDFTExecutor.idft2',
                        'ChirpZTransformExecutor.czt2', 'ChirpZTransformExecutor.iczt2']))
     g.fact('propagationEntryPointsDoNotWriteInputs', 'prysm/propagation.py:focus, unfocus, *_fixed_sampling, angular_spectrum',
-           purity(pr, ['focus', 'unfocus', 'focus_fixed_sampling', 'unfocus_fixed_sampling', 'angular_spectrum']))
+           purity(pr, ['focus', 'unfocus', 'focus_fixed_sampling', 'unfocus_fixed_sampling', 'angular_spectrum',
+                       'angular_spectrum_transfer_function', 'Q_for_sampling']))
 
     def route(name):
         def build():
